@@ -28,7 +28,7 @@ RULE = ('cases: (a) seeded random histories of 30-200 ops (add 45%/remove 25%/st
 ASSUMPTIONS = ['priorities are fixed while a system is registered (as the property states)',
                'systems do not override __eq__ (identity equality)',
                'the System/Collector subclasses used for logging only append to a list in execute()/collect()']
-FLOORS = {'quick': {'steps_after_in_call_change': 2311, 'steps_inside_multi_step_call': 7526, 'step_via_executeSystems': 3411, 'step_via_execute': 3434, 'falsy_system_objects': 3454, 'tie_pairs': 500, 'rejected_add': 50, 'rejected_remove': 50, 'steps_compared': 2000,
+FLOORS = {'quick': {'unrelated_models_constructed_mid_history': 1979, 'steps_after_in_call_change': 2311, 'steps_inside_multi_step_call': 7526, 'step_via_executeSystems': 3411, 'step_via_execute': 3434, 'falsy_system_objects': 3454, 'tie_pairs': 500, 'rejected_add': 50, 'rejected_remove': 50, 'steps_compared': 2000,
                     'reregistrations': 200, 'in_cycle_change_steps': 1000, 'big_histories': 6, 'big_systems': 300, 'two_model_histories': 500, 'contract:SystemManager.queue': 1000, 'reach:Core.SystemManager.add_system': 1000,
                     'reach:Core.SystemManager.execute_systems': 1000},
           'thorough': {'tie_pairs': 50000, 'rejected_add': 5000, 'rejected_remove': 5000, 'steps_compared': 100000,
@@ -292,6 +292,12 @@ def case_history(ctx, case):
         d = rng.choice(drivers)
         objs, ever_removed = d.objs, d.ever_removed
         x = rng.random()
+        if rng.random() < 0.05:
+            # somebody else in the process builds a model (and registers a system with a familiar id there): nothing of ours may change
+            other = d.core.Model()
+            if rng.random() < 0.5 and names:
+                other.systems.add_system(d.LogSystem(rng.choice(names), other, [], priority=rng.choice(PRIOS)))
+            ctx.count('unrelated_models_constructed_mid_history')
         reg = [r['id'] for r in d.ref]
         unreg = [n for n in names if n not in reg]
         if x < 0.40 and unreg:
